@@ -154,8 +154,10 @@ impl Host<'_> {
     fn csi_known(&mut self) -> Vec<u8> {
         let w = self.w as i64;
         let h = self.h as i64;
-        let r = self.rng.below(30);
+        let r = self.rng.below(31);
         let s = match r {
+            // ANSI (non-private) modes: insert/replace, line feed/new line, send/receive, keyboard action
+            30 => format!("\x1b[{}{}", self.rng.pick(&["4", "4", "20", "12", "2", "4;20"]), self.rng.pick(&["h", "l"])),
             0 => format!("\x1b[{};{}H", self.param(true), self.param(false)),
             1 => format!("\x1b[{};{}r", self.param(true), self.param(true)),
             2 => format!("\x1b[{};{};{};{}r", self.param(true), self.param(false), self.param(true), self.param(false)),
@@ -209,6 +211,12 @@ impl Host<'_> {
     }
 
     fn sgr(&mut self) -> Vec<u8> {
+        if self.profile == Profile::Palette && self.rng.chance(1, 3) {
+            // a lone true-colour request, from a small pool so that the same colour is asked for again later
+            const POOL: [(u8, u8, u8); 5] = [(10, 20, 30), (200, 100, 50), (1, 2, 3), (255, 255, 255), (0, 0, 0)];
+            let c = *self.rng.pick(&POOL);
+            return format!("\x1b[{};2;{};{};{}m", self.rng.pick(&[38, 48]), c.0, c.1, c.2).into_bytes();
+        }
         let mut s = String::from("\x1b[");
         let n = 1 + self.rng.usize(4);
         for i in 0..n {
@@ -439,6 +447,11 @@ impl Host<'_> {
                 20..=69 => piece(self.sgr(), true),
                 70..=79 => piece(format!("\x1b[{};{};{};{}t", self.rng.below(2), self.rng.below(256), self.rng.below(256), self.rng.below(256)).into_bytes(), true),
                 80..=89 => piece(self.csi_known(), true),
+                90..=94 => {
+                    // OSC 4 redefines one index (the slots true-colour requests were given are the interesting ones)
+                    let idx = if self.rng.chance(3, 4) { self.rng.below(22) } else { self.rng.below(300) };
+                    piece(format!("\x1b]4;{idx};rgb:{:02x}/{:02x}/{:02x}\x1b\\", self.rng.byte(), self.rng.byte(), self.rng.byte()).into_bytes(), true)
+                }
                 _ => piece(self.c0(), false),
             },
             Profile::Unicode => match r {
@@ -737,7 +750,10 @@ pub fn gen_term(prop: &'static str, rng: &mut Rng, run: u64, thorough: bool) -> 
         _ => Profile::Crash,
     };
     // every emulation gets its share; ANSI (the largest state space) gets half
-    let emu: &'static str = if matches!(profile, Profile::Unicode | Profile::Palette | Profile::Magnitude) || run % 2 == 0 {
+    let emu: &'static str = if profile == Profile::Unicode && run % 8 == 1 {
+        // the other emulations translate characters too (and are handed whole characters, see below)
+        EMULATIONS[1 + (run / 8 % 9) as usize]
+    } else if matches!(profile, Profile::Unicode | Profile::Palette | Profile::Magnitude) || run % 2 == 0 {
         "ansi"
     } else {
         EMULATIONS[1 + (run / 2 % 9) as usize]
@@ -805,6 +821,20 @@ pub fn gen_term(prop: &'static str, rng: &mut Rng, run: u64, thorough: bool) -> 
         }
     };
     transmit(rng, &sw, pieces, &mut t, &mut ui);
+    if (profile == Profile::Unicode && rng.chance(1, 3)) || (profile == Profile::Crash && rng.chance(1, 10)) {
+        // a front end that decodes UTF-8 itself hands over characters, not bytes: from the private use area just
+        // above the surrogates, the ends of the planes, ones whose low 16 bits look like a surrogate
+        const WIDE: [u32; 20] = [
+            0x100, 0x2588, 0x263A, 0xD7FF, 0xE000, 0xE001, 0xE03F, 0xE07F, 0xE080, 0xF8FF, 0xFFFD, 0xFFFE, 0xFFFF, 0x1_0000, 0x1_D800, 0x1_DFFF, 0x1_F600, 0x2_D800, 0x10_DC00, 0x10_FFFF,
+        ];
+        for _ in 0..1 + rng.usize(5) {
+            let n = 1 + rng.usize(4);
+            let cps: Vec<u32> = (0..n).map(|_| if rng.chance(1, 5) { 0xE000 + rng.below(0x100) as u32 } else { *rng.pick(&WIDE) }).collect();
+            let at = rng.usize(t.events.len() + 1);
+            t.events.insert(at, Ev::RxWide { cps });
+        }
+        t.labels.push("wide=yes".into());
+    }
     t.events.push(Ev::Poll);
     t
 }
@@ -861,7 +891,7 @@ pub fn gen_c03(rng: &mut Rng, _run: u64, _thorough: bool) -> Trace {
     // ("at most one screenful") is only as good as that one
     let mut bound_w = w as u64;
     let mut bound_h = h as u64;
-    if emu == "ansi" && rng.chance(1, 6) {
+    if emu == "ansi" && rng.chance(1, 3) {
         let hh = mag(rng, h as i64);
         let ww = mag(rng, w as i64);
         bytes.extend(format!("\x1b[8;{hh};{ww}t").into_bytes());
@@ -897,7 +927,46 @@ pub fn gen_c03(rng: &mut Rng, _run: u64, _thorough: bool) -> Trace {
         }
     } else {
         let size = if rng.chance(1, 2) { w } else { h } as i64;
-        match rng.below(14) {
+        match rng.below(16) {
+            15 => {
+                // macro numbers are numbers too: define under an extreme id, then ask for the checksum of all
+                // macros (DECCKSR) and invoke it
+                let id = mag(rng, size);
+                let enc = rng.below(2);
+                let body = if enc == 1 { "4142" } else { "AB" };
+                bytes.extend(format!("\x1bP{id};0;{enc}!z{body}\x1b\\").into_bytes());
+                match rng.below(3) {
+                    0 => bytes.extend(format!("\x1b[?63;{}n", rng.below(3)).into_bytes()),
+                    1 => bytes.extend(format!("\x1b[{id}*z").into_bytes()),
+                    _ => bytes.extend(format!("\x1b[?63;1n\x1b[{id}*z").into_bytes()),
+                }
+                target = "macro:id".into();
+            }
+            14 => {
+                // rectangle functions: top / left / bottom / right each independently on the screen or far
+                // outside it (a function may check three of its four edges)
+                let mut edge = |r: &mut Rng, size: i64| -> String {
+                    match r.below(5) {
+                        0 => "1".to_string(),
+                        1 => r.range(1, size.max(1)).to_string(),
+                        2 => size.to_string(),
+                        3 => "2147483647".to_string(),
+                        _ => mag(r, size),
+                    }
+                };
+                let (t, l, b, r_) = (edge(rng, h as i64), edge(rng, w as i64), edge(rng, h as i64), edge(rng, w as i64));
+                let s = match rng.below(7) {
+                    0 => format!("\x1b[1;1;{t};{l};{b};{r_}*y"),
+                    1 => format!("\x1b[65;{t};{l};{b};{r_}$x"),
+                    2 => format!("\x1b[{t};{l};{b};{r_}$z"),
+                    3 => format!("\x1b[{t};{l};{b};{r_}${{"),
+                    4 => format!("\x1b[{t};{l};{b};{r_};1;1;1;1$v"),
+                    5 => format!("\x1b[{t};{l};{b};{r_};1$r"),
+                    _ => format!("\x1b[{t};{l};{b};{r_};7$t"),
+                };
+                bytes.extend(s.into_bytes());
+                target = "csi:rectangle".into();
+            }
             0..=5 => {
                 let f = (0x40 + rng.below(0x3f) as u8) as char;
                 let pr = *rng.pick(&["", "", "", "?", "=", "!", "<"]);
